@@ -1338,6 +1338,14 @@ class ExprMixin:
                 return rv, self.node("local_mut", preds, op=name, base=recv, args=tuple(args), value=Val("tuple", *args))
             return rv, preds
         o = self.node("call_unknown", preds, may_raise=not pure, callee=None, recv=recv, method=name, args=tuple(args), kwargs=self.kw_tuple(kwargs), result=rv)
+        if not pure and args and recv.kind in ("call", "mut") and self.frames:
+            # an opaque local object absorbs what is fed into it (m.update(blob)):
+            # keep the provenance on the variable(s) holding it
+            nv = Val("mut", recv, tuple(args))
+            env = self.fr.env
+            for k_, v_ in list(env.items()):
+                if v_ == recv:
+                    env[k_] = nv
         return rv, o
 
     def call_on_cls(self, clsval, name, args, kwargs, preds, after=None, explicit=False):
